@@ -138,7 +138,9 @@ pub fn conforms(r: &Rec, s: &'static DataModelType, path: &str) -> Result<(), St
         (D::Schema, Rec::UnitVariant { name, .. } | Rec::NewtypeVariant { name, .. } | Rec::StructVariant { name, .. } | Rec::TupleVariant { name, .. })
             if *name == "DataModelType" || *name == "OwnedDataModelType" =>
         {
-            Ok(())
+            // what a host parses a schema with is the OWNED schema type: every enum variant in the value must
+            // carry the index that type (and OwnedData) gives to the variant of the same name
+            schema_value_indices(r, path)
         }
         _ => bad(),
     }
@@ -147,6 +149,99 @@ pub fn conforms(r: &Rec, s: &'static DataModelType, path: &str) -> Result<(), St
 fn rec_kind(r: &Rec) -> String {
     let s = format!("{:?}", r);
     s.chars().take(60).collect()
+}
+
+fn schema_value_indices(r: &Rec, path: &str) -> Result<(), String> {
+    let chk = |name: &str, idx: u32, variant: &'static str| -> Result<(), String> {
+        let family = match name {
+            "DataModelType" | "OwnedDataModelType" => "type",
+            "Data" | "OwnedData" => "data",
+            _ => return Ok(()),
+        };
+        match schema_variant_table().get(&(family, variant)) {
+            Some(i) if *i == idx => Ok(()),
+            other => Err(format!("{path}: schema value contains {name}::{variant} serialised with index {idx}; the owned schema types have {:?} for that name", other)),
+        }
+    };
+    match r {
+        Rec::UnitVariant { name, idx, variant } => chk(name, *idx, variant),
+        Rec::NewtypeVariant { name, idx, variant, inner } => {
+            chk(name, *idx, variant)?;
+            schema_value_indices(inner, path)
+        }
+        Rec::TupleVariant { name, idx, variant, fields, .. } => {
+            chk(name, *idx, variant)?;
+            fields.iter().try_for_each(|f| schema_value_indices(f, path))
+        }
+        Rec::StructVariant { name, idx, variant, fields, .. } => {
+            chk(name, *idx, variant)?;
+            fields.iter().try_for_each(|(_, f)| schema_value_indices(f, path))
+        }
+        Rec::Some(x) | Rec::NewtypeStruct(_, x) => schema_value_indices(x, path),
+        Rec::Seq(_, l) | Rec::Tuple(_, l) | Rec::TupleStruct(_, _, l) => l.iter().try_for_each(|f| schema_value_indices(f, path)),
+        Rec::Struct(_, _, l) => l.iter().try_for_each(|(_, f)| schema_value_indices(f, path)),
+        Rec::Map(_, l) => l.iter().try_for_each(|(k, v)| schema_value_indices(k, path).and_then(|_| schema_value_indices(v, path))),
+        _ => Ok(()),
+    }
+}
+
+/// (family, variant name) -> variant index of `OwnedDataModelType` / `OwnedData`, read off their own Serialize impls
+fn schema_variant_table() -> &'static BTreeMap<(&'static str, &'static str), u32> {
+    static T: std::sync::OnceLock<BTreeMap<(&'static str, &'static str), u32>> = std::sync::OnceLock::new();
+    T.get_or_init(|| {
+        use vmodel::schema::{Sd, St, PRIM_KINDS};
+        let mut samples: Vec<St> = PRIM_KINDS.to_vec();
+        let b = || Box::new(St::U8);
+        samples.extend([
+            St::Option(b()),
+            St::Seq(b()),
+            St::Tuple(vec![St::U8]),
+            St::Map(b(), b()),
+            St::Struct("S".into(), Sd::Unit),
+            St::Struct("S".into(), Sd::Newtype(b())),
+            St::Struct("S".into(), Sd::Tuple(vec![St::U8, St::U8])),
+            St::Struct("S".into(), Sd::Struct(vec![("f".into(), St::U8)])),
+            St::Enum("E".into(), vec![]),
+            St::Schema,
+        ]);
+        fn walk(r: &Rec, m: &mut BTreeMap<(&'static str, &'static str), u32>) {
+            let mut put = |name: &str, idx: u32, variant: &'static str| match name {
+                "OwnedDataModelType" => {
+                    m.insert(("type", variant), idx);
+                }
+                "OwnedData" => {
+                    m.insert(("data", variant), idx);
+                }
+                _ => {}
+            };
+            match r {
+                Rec::UnitVariant { name, idx, variant } => put(name, *idx, variant),
+                Rec::NewtypeVariant { name, idx, variant, inner } => {
+                    put(name, *idx, variant);
+                    walk(inner, m)
+                }
+                Rec::TupleVariant { name, idx, variant, fields, .. } => {
+                    put(name, *idx, variant);
+                    fields.iter().for_each(|f| walk(f, m))
+                }
+                Rec::StructVariant { name, idx, variant, fields, .. } => {
+                    put(name, *idx, variant);
+                    fields.iter().for_each(|(_, f)| walk(f, m))
+                }
+                Rec::Some(x) | Rec::NewtypeStruct(_, x) => walk(x, m),
+                Rec::Seq(_, l) | Rec::Tuple(_, l) | Rec::TupleStruct(_, _, l) => l.iter().for_each(|f| walk(f, m)),
+                Rec::Struct(_, _, l) => l.iter().for_each(|(_, f)| walk(f, m)),
+                _ => {}
+            }
+        }
+        let mut m = BTreeMap::new();
+        for t in samples {
+            if let Ok(r) = record_tree(&crate::schema_glue::to_owned(&t)) {
+                walk(&r, &mut m);
+            }
+        }
+        m
+    })
 }
 
 // ---- corpus ----
@@ -381,6 +476,14 @@ fn run_corpus(r: &mut Runner) {
     r.list::<nalgebra::SMatrix<f32, 1, 2>>("nalgebra::SMatrix<f32,1,2>", vec![nalgebra::SMatrix::<f32, 1, 2>::new(1.5, -0.0)]);
     // Key and the schema types themselves
     r.list::<Key>("Key", vec![Key::for_path::<u8>("a"), Key::for_path::<SNest>("test_path")]);
+    {
+        // the borrowed schema type itself, every kind (its Schema is the `Schema` kind: a host reads it as an owned schema)
+        let mut arena = crate::schema_glue::Arena::default();
+        let mut all: Vec<&'static DataModelType> = vmodel::schema::PRIM_KINDS.iter().map(|k| arena.build(k)).collect();
+        all.push(arena.build(&vmodel::schema::St::Schema));
+        all.extend([SNest::SCHEMA, SOuter::SCHEMA, <BTreeMap<String, Option<[u8; 2]>>>::SCHEMA, <(u8, Vec<i16>)>::SCHEMA]);
+        r.chk::<DataModelType>("DataModelType(borrowed)", all);
+    }
     r.list::<OwnedDataModelType>(
         "OwnedDataModelType",
         vec![OwnedDataModelType::Bool, OwnedDataModelType::from(SNest::SCHEMA), OwnedDataModelType::from(SOuter::SCHEMA), OwnedDataModelType::from(<BTreeMap<String, Option<[u8; 2]>>>::SCHEMA)],
